@@ -79,8 +79,12 @@ SelOf(e, run, pc) ==
        ELSE LET x == AuditColl(run.audit, e.c) IN
             {id \in DOMAIN docs : id \notin AuditDocIds(x) \/ AuditDoc(x, id) # docs[id]}
 
-HintOf(e, run, pc) ==
-    [ids |-> IF HasField(run.res, "ids") THEN run.res.ids ELSE <<>>,
+HintOf(e, run, pc, pf) ==
+    [ids |-> IF HasField(run.res, "ids") THEN run.res.ids
+             \* imported documents keep the ids found in the file
+             ELSE IF e.op = "Import" /\ e.path \in DOMAIN pf /\ pf[e.path][1] = "docs"
+                  THEN [i \in DOMAIN pf[e.path][2] |-> DocId(pf[e.path][2][i])]
+             ELSE <<>>,
      sel |-> IF e.op \in BulkOps \cup {"CreateByQuery"} /\ HasColl(pc, e.c)
                 THEN SelOf(e, run, pc) ELSE {}]
 
@@ -90,7 +94,7 @@ NoPanic(run) == run.res.st \in {"ok", "err"}
 \* the error class / success is one the specification admits in the pre-state
 OutcomeOk(e, run, pc, pf) ==
     /\ run.res.st = "err" => run.res.err \in Errs(pc, pf, e)
-    /\ run.res.st = "ok"  => CanOk(pc, pf, e) /\ HintOk(pc, pf, e, HintOf(e, run, pc))
+    /\ run.res.st = "ok"  => CanOk(pc, pf, e) /\ HintOk(pc, pf, e, HintOf(e, run, pc, pf))
 
 \* returned values of the read operations (C01 C08 C09 C12 C13 C14)
 OptDocOk(v, docs, id) ==     \* v = <<>> (nil) or <<doc>>
